@@ -4,6 +4,8 @@
 #include "romea_core_common/transform/SmartRotation3D.hpp"
 #include "romea_core_common/geometry/Pose3D.hpp"
 #include "romea_core_common/math/EulerAngles.hpp"
+#include "romea_core_common/regression/leastsquares/LeastSquares.hpp"
+#include <Eigen/Dense>
 #include <map>
 #include <set>
 #include <string>
@@ -96,6 +98,36 @@ int main(int argc, char ** argv)
         if (bad.insert(name).second && printed++ < 90) printf("FAILING-INPUT: %s: fully correlated covariance L L^T: covariance'(%d,%d) = %.9g but covariance'(%d,%d) = %.9g (J cov J^T is symmetric)\n", name, i, j, r.covariance(i, j), j, i, r.covariance(j, i));
       }
   }
+  // least-squares solver: reported covariance against variance * Ac * (J^T J)^-1 * Ac^T computed independently, for a diagonal preconditioner,
+  // on all three estimation paths, on a fresh object and on an object that held a larger problem before (stale rows)
+  for (int k = 0; k < 60; ++k) {
+    int n = 2 + k % 3, m = n + 1 + (int)(rng() % 6), mbig = m + 1 + (int)(rng() % 5);
+    for (int reuse = 0; reuse < 2; ++reuse) for (int path = 0; path < 3; ++path) {
+      LeastSquares<double> ls(n);
+      if (reuse) {
+        ls.setDataSize(mbig);
+        for (int i = 0; i < mbig; ++i) { for (int j = 0; j < n; ++j) ls.getJ()(i, j) = 50 + (double)(rng() % 2001) / 100; ls.getY()(i) = 7; }
+        ls.estimateUsingSVD();
+      }
+      ls.setDataSize(m);
+      Eigen::MatrixXd J(m, n); Eigen::VectorXd Y(m);
+      for (int i = 0; i < m; ++i) { for (int j = 0; j < n; ++j) { J(i, j) = (double)(rng() % 2001) / 1000 - 1 + (i == j ? 2.0 : 0.0); ls.getJ()(i, j) = J(i, j); } Y(i) = (double)(rng() % 2001) / 1000 - 1; ls.getY()(i) = Y(i); }
+      Eigen::MatrixXd Ac = Eigen::MatrixXd::Zero(n, n); Eigen::VectorXd Bc(n);
+      for (int j = 0; j < n; ++j) { Ac(j, j) = (k % 4 == 0) ? 1.0 : 0.25 * (1 + (double)(rng() % 16)); Bc(j) = (double)(rng() % 11) - 5; }
+      ls.setPreconditionner(Ac, Bc);
+      const char * pname = path == 0 ? "estimateUsingCholeskyDecomposition" : (path == 1 ? "estimateUsingSVD" : "weightedEstimate");
+      if (path == 0) ls.estimateUsingCholeskyDecomposition(); else if (path == 1) ls.estimateUsingSVD(); else ls.weightedEstimate();
+      double var = 0.5 + (double)(rng() % 100) / 50;
+      Eigen::MatrixXd cov = ls.computeEstimateCovariance(var);
+      Eigen::MatrixXd want_cov = var * Ac * (J.transpose() * J).inverse() * Ac.transpose();
+      double err = (cov - want_cov).norm(), scale = want_cov.norm();
+      if (!(err <= 1e-8 * (1 + scale))) {
+        if (bad.insert("least_squares.covariance").second || printed < 100) if (printed++ < 100)
+          printf("FAILING-INPUT: least_squares.covariance: %s, %d unknowns, %d data rows%s, diagonal preconditioner (%g, %g, ...), variance %g: reported covariance differs from variance * Ac * (JtJ)^-1 * Ac^T by %.3g (norm %.3g); cov(0,1) = %.9g, expected %.9g\n",
+                 pname, n, m, reuse ? " (object held a larger problem before)" : "", Ac(0, 0), Ac(1, 1), var, err, scale, cov(0, 1), want_cov(0, 1));
+      }
+    }
+  }
   if (bad.empty()) { printf("no failing input found: all derivative entries agree with finite differences of R()\n"); return 0; }
   if (!want.empty()) {
     std::string key = want.substr(0, want.find('.'));
@@ -105,6 +137,7 @@ int main(int argc, char ** argv)
       for (auto & n : bad) if (n.find("pose_transform.covariance[") != std::string::npos) return 1;
       return 0;
     }
+    if (want.find("least_squares") != std::string::npos) return bad.count("least_squares.covariance") ? 1 : 0;
     if (want.find("pose_transform.J[") != std::string::npos)
       return bad.count(want.substr(want.find("pose_transform.J["), want.find(']') - want.find("pose_transform.J[") + 1)) ? 1 : 0;
   }
